@@ -204,6 +204,77 @@ GROUPS["cnf_token_small"] = dict(GROUPS["cnf_token_t0"], **{
     ],
 })
 
+GROUPS["aiger_token_t0"] = dict(dict(_MODEL, **_SPEC_INJECT), **{
+    "name": "aiger_token_t0",
+    "package": "flussab-aiger",
+    "prefix": "token::verif_token::",
+    "overlay": [("flussab-aiger/src/token.rs", "token", "harness/aiger/token_t0.rs")],
+    "params": {"quick": {"N": 8}, "thorough": {"N": 10}},
+    "flags": ["-Z", "stubbing"],
+    "flags_tier": {"quick": ["--default-unwind", "10"], "thorough": ["--default-unwind", "12"]},
+    "timeout": {"quick": 1200, "thorough": 5400},
+    "harnesses": [
+        ("space_and_newline_tokens", {"props": ["C09", "C08", "C05"], "cost": 1, "what": "aiger space / newline: one byte, line accounting, no look-ahead past the LF"}),
+        ("required_single_byte_tokens", {"props": ["C09", "C08", "C04", "C05"], "cost": 3, "what": "required_space / required_newline / required_newline_or_space incl. error location"}),
+        ("fixed_tokens", {"props": ["C05", "C06"], "cost": 2, "what": "fixed / fixed_not_eol"}),
+        ("eof_token", {"props": ["C04"], "cost": 1, "what": "eof only at the end of a source that did not fail"}),
+        ("uint_u8", {"props": ["C06", "C05", "C04"], "cost": 3, "what": "aiger uint::<u8>: no leading zeros, exact, overflow -> Err"}),
+        ("uint_usize", {"props": ["C06", "C09"], "cost": 3, "what": "aiger uint::<usize>"}),
+        ("uint_u8_real", {"props": ["C06", "C01"], "cost": 9, "tiers": T, "what": "aiger uint::<u8> over the real optimised scanner"}),
+        ("uint_usize_real", {"props": ["C06", "C01"], "cost": 9, "tiers": T, "what": "aiger uint::<usize> over the real optimised scanner"}),
+        ("binary_uint_token", {"props": ["C06", "C05", "C08", "C04", "C09"], "cost": 5, "what": "binary_uint: 7-bit groups, <= 8 bytes, truncated input, location"}),
+        ("delta_code_token", {"props": ["C06", "C05", "C08"], "cost": 5, "what": "delta_code: delta <= code, result code - delta"}),
+        ("limited_header_field", {"props": ["C06", "C08", "C04", "C05"], "cost": 6, "what": "header_field(limit): accepted iff well-formed and <= limit; error at the token"}),
+        ("limited_lit", {"props": ["C06", "C08", "C04", "C05"], "cost": 6, "what": "lit(limit, assigning): <= limit; even and non-zero when assigning"}),
+        ("limited_symbol_index", {"props": ["C06", "C08", "C05"], "cost": 6, "what": "symbol_index(limit)"}),
+        ("remaining_line_content_ascii", {"props": ["C09", "C08", "C04", "C05"], "cost": 6, "what": "remaining_line_content: name = line without LF, only if the LF is there"}),
+        ("remaining_file_content_ascii", {"props": ["C04", "C08", "C05", "C01"], "cost": 7, "what": "remaining_file_content: comment accepted iff empty or LF-terminated AND the source did not fail"}),
+        ("unexpected_total", {"props": ["C05", "C08", "C04"], "cost": 3, "what": "unexpected()"}),
+        ("reach_aiger_token", {"kind": "reach", "cost": 2, "what": "vacuity twin"}),
+    ],
+})
+
+GROUPS["aiger_token_small"] = dict(GROUPS["aiger_token_t0"], **{
+    "name": "aiger_token_small",
+    "params": {"quick": {"N": 4}, "thorough": {"N": 5}},
+    "flags_tier": {"quick": ["--default-unwind", "6"], "thorough": ["--default-unwind", "7"]},
+    "harnesses": [
+        ("remaining_line_content_utf8", {"props": ["C05", "C08", "C06"], "cost": 9, "tiers": T, "what": "remaining_line_content with the REAL UTF-8 validation on arbitrary bytes (small window)"}),
+    ],
+})
+
+GROUPS["parser_c15"] = {
+    "name": "parser_c15",
+    "package": "flussab",
+    "prefix": "parser::verif_parser::",
+    "overlay": [("flussab/src/parser.rs", "parser", "harness/flussab/parser_c15.rs")],
+    "flags": ["--default-unwind", "3"],
+    "timeout": {"quick": 600, "thorough": 600},
+    "harnesses": [
+        ("c15_or_parse", {"what": "or_parse: alternative runs iff Fallthrough"}),
+        ("c15_or_always_parse", {"what": "or_always_parse"}),
+        ("c15_or_give_up", {"what": "or_give_up: Fallthrough -> supplied error"}),
+        ("c15_optional_matches_from", {"what": "optional / matches / From<Result>"}),
+        ("c15_and_then", {"what": "and_then: continuation iff success; failure committed"}),
+        ("c15_and_also", {"what": "and_also"}),
+        ("c15_and_do_map_map_err_err_into", {"what": "and_do / map / map_err / err_into touch only their case"}),
+        ("c15_result_ext", {"what": "ResultExt::{err_into, and_also, and_do}"}),
+        ("reach_c15", {"kind": "reach", "what": "vacuity twin"}),
+    ],
+}
+
+PROPERTIES["C15"] = {
+    "level": "model_checking",
+    "groups": ["parser_c15"],
+    "claim": "SAT-based model checking of every combinator of the real Parsed type with a symbolic input case, symbolic payloads and symbolic closure results (closures count their invocations): the finite domain at the u8 instantiation is covered completely, so for this instantiation the claim is unbounded.",
+    "level_note": "Instantiation T=E=u8 (u16/u32 targets for map/map_err/err_into); other instantiations differ only by monomorphisation. Trusted: Kani/CBMC/cadical.",
+    "functions": ["flussab::Parsed::{err_into, or_give_up, optional, matches, or_parse, or_always_parse, and_then, and_also, and_do, map, map_err}", "From<Result> for Parsed", "ResultExt::{err_into, and_also, and_do}"],
+    "explanation": "Each harness asserts the specification table of one combinator and that the closure ran exactly once when the table says so and never otherwise.",
+    "bounds_note": "none beyond the u8 instantiation (finite domain, complete)",
+    "outside": ["other type instantiations"],
+    "assumptions": [],
+}
+
 PROPERTIES["C13"] = {
     "level": "model_checking",
     "groups": ["text_t0"],
@@ -278,7 +349,7 @@ PROPERTIES["C07"] = {
 
 PROPERTIES["C06"] = {
     "level": "model_checking",
-    "groups": ["cnf_token_t0", "text_t0"],
+    "groups": ["cnf_token_t0", "aiger_token_t0", "text_t0"],
     "claim": "SAT-based bounded model checking of the real number/limit tokenizers on a fully symbolic window against an independent wide-arithmetic reference: a token is accepted iff it is a representable number word within the stated limit, and the returned number equals the decimal number written; T1/T2 harnesses (where present) decide clause-count gating and limit installation from symbolic parser states.",
     "level_note": "Token-level (window N bytes). The optimised digit scanners are replaced by their specification in the quick tier (justified by C13, which proves the real scanners meet it) and run for real in the thorough tier. Message formatting and UTF-8 validation of message text are stubbed (outside the claim).",
     "functions": ["flussab_cnf::token::{uint, int, braced_uint, var_count, uint_count, clause_group}", "flussab::text::{ascii_digits, signed_ascii_digits}"],
